@@ -211,9 +211,11 @@ pub fn render(spec: &EnumSpec) -> String {
     o.push_str(
         r#"    ];
     vf_core::props::c15::explore(ctx,
-        &mut |i: usize, k: &str| vf_core::guard(|| vals[i].get_str(k).map(String::from)),
-        &mut |i: usize, k: &str| vf_core::guard(|| vals[i].get_int(k)),
-        &mut |i: usize, k: &str| vf_core::guard(|| vals[i].get_bool(k)));
+        // every getter is asked through the value, through a double reference (what iterator adaptors hand to closures) and
+        // through a trait object; the three receivers must agree
+        &mut |i: usize, k: &str| vf_core::guard(|| { let a = vals[i].get_str(k); let r = &&vals[i]; let b = r.get_str(k); let d: &dyn strum::EnumProperty = &vals[i]; let c = d.get_str(k); if a != b || b != c { panic!("receivers disagree: E {:?}, &&E {:?}, dyn {:?}", a, b, c) } a.map(String::from) }),
+        &mut |i: usize, k: &str| vf_core::guard(|| { let a = vals[i].get_int(k); let r = &&vals[i]; let b = r.get_int(k); let d: &dyn strum::EnumProperty = &vals[i]; let c = d.get_int(k); if a != b || b != c { panic!("receivers disagree: E {:?}, &&E {:?}, dyn {:?}", a, b, c) } a }),
+        &mut |i: usize, k: &str| vf_core::guard(|| { let a = vals[i].get_bool(k); let r = &&vals[i]; let b = r.get_bool(k); let d: &dyn strum::EnumProperty = &vals[i]; let c = d.get_bool(k); if a != b || b != c { panic!("receivers disagree: E {:?}, &&E {:?}, dyn {:?}", a, b, c) } a }));
 }
 "#,
     );
